@@ -208,6 +208,90 @@ macro_rules! transcript {
             println!("ZERO-X {} {}", $name, word);
             h.update(word.as_bytes());
         }
+        // rejections are behaviour too: a tampered ciphertext, tag or aad, a wrong psk / psk_id / info
+        // and a replay must be refused under every feature set exactly as under the full one
+        {
+            let mut words: Vec<String> = Vec::new();
+            let mk = |seed: u64| {
+                let mut rng = DetRng(seed);
+                hpke::setup_sender::<ChaCha20Poly1305, HkdfSha256, Kem, _>(&OpModeS::<Kem>::Psk(psk), &pk_r, info, &mut rng).unwrap()
+            };
+            let (enc, mut s) = mk(66);
+            let mut body = [9u8; 33];
+            let tag = s.seal_in_place_detached(&mut body, b"aad").unwrap();
+            let try_open = |m: &OpModeR<Kem>, inf: &[u8], body: &[u8], aad: &[u8], tagb: &[u8]| -> String {
+                match hpke::setup_receiver::<ChaCha20Poly1305, HkdfSha256, Kem>(m, &sk_r, &enc, inf) {
+                    Err(e) => format!("setup {:?}", e),
+                    Ok(mut r) => {
+                        let mut b = body.to_vec();
+                        let t = AeadTag::<ChaCha20Poly1305>::from_bytes(tagb).unwrap();
+                        let first = r.open_in_place_detached(&mut b, aad, &t);
+                        // a second presentation of the same bytes (replay if the first succeeded)
+                        let mut b2 = body.to_vec();
+                        let second = r.open_in_place_detached(&mut b2, aad, &t);
+                        format!("{:?}/{:?}", first.map(|_| "ok"), second.map(|_| "ok"))
+                    }
+                }
+            };
+            let good = OpModeR::<Kem>::Psk(psk);
+            let tagb = tag.to_bytes();
+            words.push(try_open(&good, info, &body, b"aad", &tagb));
+            let mut b1 = body; b1[0] ^= 1;
+            words.push(try_open(&good, info, &b1, b"aad", &tagb));
+            let mut t1 = tagb.clone(); t1[15] ^= 0x80;
+            words.push(try_open(&good, info, &body, b"aad", &t1));
+            words.push(try_open(&good, info, &body, b"aae", &tagb));
+            words.push(try_open(&good, b"cfgprobe infp", &body, b"aad", &tagb));
+            let p2 = PskBundle::new(b"cfgprobe psk bytes", b"cfgprobe psk iD").unwrap();
+            words.push(try_open(&OpModeR::<Kem>::Psk(p2), info, &body, b"aad", &tagb));
+            let p3 = PskBundle::new(b"cfgprobe psk bytez", b"cfgprobe psk id").unwrap();
+            words.push(try_open(&OpModeR::<Kem>::Psk(p3), info, &body, b"aad", &tagb));
+            words.push(try_open(&OpModeR::<Kem>::Base, info, &body, b"aad", &tagb));
+            #[cfg(any(feature = "alloc", feature = "std"))]
+            {
+                // the allocating interface on the same cases
+                let (enc_a, mut s_a) = mk(67);
+                let ct = s_a.seal(b"allocating negative", b"aad").unwrap();
+                let open_a = |ct: &[u8], aad: &[u8]| -> String {
+                    let mut r = hpke::setup_receiver::<ChaCha20Poly1305, HkdfSha256, Kem>(&OpModeR::<Kem>::Psk(psk), &sk_r, &enc_a, info).unwrap();
+                    format!("{:?}", r.open(ct, aad).map(|v| v.len()))
+                };
+                let mut wa: Vec<String> = Vec::new();
+                wa.push(open_a(&ct, b"aad"));
+                let mut c1 = ct.clone(); c1[3] ^= 4;
+                wa.push(open_a(&c1, b"aad"));
+                let mut c2 = ct.clone(); let l = c2.len(); c2[l - 1] ^= 1;
+                wa.push(open_a(&c2, b"aad"));
+                wa.push(open_a(&ct, b""));
+                wa.push(open_a(&ct[..ct.len() - 1], b"aad"));
+                wa.push(format!("{:?}", hpke::single_shot_open::<ChaCha20Poly1305, HkdfSha256, Kem>(&OpModeR::<Kem>::Psk(psk), &sk_r, &enc_a, info, &c1, b"aad").map(|v| v.len())));
+                let word = wa.join(" ");
+                println!("NEG-ALLOC {} {}", $name, word);
+                ha.update(word.as_bytes());
+            }
+            let word = words.join(" ");
+            println!("NEG {} {}", $name, word);
+            h.update(word.as_bytes());
+        }
+        // one RNG stream shared by consecutive operations: how much each of them draws is part of the
+        // behaviour (the next operation's keys depend on it) and must not depend on which other
+        // curves are compiled in
+        {
+            let mut rng = DetRng(99);
+            let (_sk1, pk1) = <Kem as KemTrait>::gen_keypair(&mut rng);
+            let (enc, _s) = hpke::setup_sender::<ChaCha20Poly1305, HkdfSha256, Kem, _>(&OpModeS::<Kem>::Base, &pk_r, info, &mut rng).unwrap();
+            let (_sk2, pk2) = <Kem as KemTrait>::gen_keypair(&mut rng);
+            let mut buf = [3u8; 5];
+            let (enc2, _tag) = hpke::single_shot_seal_in_place_detached::<ChaCha20Poly1305, HkdfSha256, Kem, _>(&OpModeS::<Kem>::Base, &pk_r, info, &mut buf, b"", &mut rng).unwrap();
+            let next = rng.next_u64();
+            h.update(pk1.to_bytes());
+            h.update(enc.to_bytes());
+            h.update(pk2.to_bytes());
+            h.update(enc2.to_bytes());
+            let word = format!("stream position after keygen, setup, keygen, single-shot: next word {:016x}", next);
+            println!("RNG-STREAM {} {}", $name, word);
+            h.update(word.as_bytes());
+        }
         // the wipes on drop are part of the crate's behaviour under every configuration (and must
         // not depend on the verification guard): receiver context and KEM shared secret
         {
